@@ -185,7 +185,9 @@ def trade_steps(cx):
         except (KeyError, TypeError):
             pass
         # C09: under current-bar matching without slippage a fill of an opening order cannot overdraw the account
+        # (LimitPriceSlippage is a slippage model: it trades at the order's limit price, away from the bar's price)
         if o and tr['eff'] == 'OPEN' and cx.sim.get('matching_type') == 'current_bar' and not cx.sim.get('slippage') \
+                and cx.sim.get('slippage_model') != 'LimitPriceSlippage' \
                 and t['pre'].get('phase') != 'OPEN_AUCTION' and cx.cfg['mod']['sys_risk'].get('validate_cash', True):
             try:
                 b0 = t['pre']['pub'][acc]['cash'] + a0['frozen']
